@@ -50,6 +50,10 @@ _de += [
     H("rt_opt_none", "C13.K.scalar_roundtrip.option_none", DE, ["Deserializer<'de> for Any::deserialize_option"], "None round trip"),
     H("rt_newtype_struct", "C13.K.newtype_struct.roundtrip", DE, ["Deserializer<'de> for Any::deserialize_newtype_struct", SER + "::Serializer for AnySerializer::serialize_newtype_struct"],
       "a derive-shaped newtype struct W(i64) round-trips through Any (all values)"),
+    H("rt_string_len2", "C13.K.string_roundtrip.len2", DE, ["Deserializer<'de> for Any::deserialize_any", SER + "::Serializer for AnySerializer::serialize_str"],
+      "every UTF-8 string of <= 2 bytes round-trips through Any", kind="bounded", bound="strings of <= 2 bytes", timeout=300),
+    H("rt_bytes_len2", "C13.K.bytes_roundtrip.len2", DE, ["Deserializer<'de> for Any::deserialize_bytes", "Deserializer<'de> for Any::deserialize_byte_buf", SER + "::Serializer for AnySerializer::serialize_bytes"],
+      "every 2-byte binary value round-trips through Any (ByteBuf-shaped type)", kind="bounded", bound="2-byte values", timeout=300),
     H("rt_char", "C13.K.scalar_roundtrip.char", DE, ["Deserializer<'de> for Any::deserialize_any"], "char round trip, all scalar values (stored as a string)"),
 ]
 for t in ["bool"] + INTS + ["char", "f32", "f64"]:
